@@ -8,9 +8,17 @@ use std::convert::TryFrom;
 use std::hash::{Hash, Hasher};
 use std::panic::{catch_unwind, AssertUnwindSafe};
 
+/// Nesting depth of `guard`: the panic hook stays silent inside (a library panic is data) and
+/// reports panics of the harness's own code outside.
+pub static GUARD_DEPTH: std::sync::atomic::AtomicUsize = std::sync::atomic::AtomicUsize::new(0);
+
 /// Run a closure that calls into the library; a panic is data (`None`).
 pub fn guard<T, F: FnOnce() -> T>(f: F) -> Option<T> {
-    catch_unwind(AssertUnwindSafe(f)).ok()
+    use std::sync::atomic::Ordering;
+    GUARD_DEPTH.fetch_add(1, Ordering::SeqCst);
+    let r = catch_unwind(AssertUnwindSafe(f)).ok();
+    GUARD_DEPTH.fetch_sub(1, Ordering::SeqCst);
+    r
 }
 
 // ---------------------------------------------------------------- text
